@@ -371,7 +371,11 @@ impl<E: CloseEntry, S: EntrySink<RootMetric<E>>> DerefMut for AppendAndCloseOnDr
 impl<E: CloseEntry, S: EntrySink<RootMetric<E>>> Drop for AppendAndCloseOnDropInner<E, S> {
     fn drop(&mut self) {
         let entry = self.entry.take().expect("only drop calls this");
+        #[cfg(metrique_verif)]
+        metrique_writer_core::verif_hooks::point("aacod.drop.before_close");
         let entry = entry.close();
+        #[cfg(metrique_verif)]
+        metrique_writer_core::verif_hooks::point("aacod.drop.before_append");
         self.sink.append(RootEntry::new(entry));
     }
 }
